@@ -3,6 +3,7 @@ package functions
 import (
 	"strings"
 
+	"github.com/nyaruka/goflow/envs"
 	"github.com/nyaruka/goflow/excellent/types"
 )
 
@@ -12,6 +13,15 @@ var XFUNCTIONS = map[string]*types.XFunction{}
 // RegisterXFunction registers a new function in Excellent
 func RegisterXFunction(name string, f types.XFunc) {
 	XFUNCTIONS[name] = types.NewXFunction(name, f)
+}
+
+// XWORK is what calls of functions take beyond what is in proportion to the sizes of their arguments and results, for the
+// functions where that is something, in the units of the budget of an evaluation
+var XWORK = map[string]func(envs.Environment, []types.XValue) int{}
+
+// RegisterXWork registers the extra work of calling the function with the given name
+func RegisterXWork(name string, work func(envs.Environment, []types.XValue) int) {
+	XWORK[name] = work
 }
 
 // Lookup returns the function with the given name (case-insensitive) or nil
